@@ -198,12 +198,20 @@ long long c_delineate_boundary(long long nrows, long long ncols,
     shift[3] = ncols;
 
     /* Step 1 - find cells on the boundary by looping through cells */
+    idxcell = idxcells_area[0];
+    if(idxcell<0 || idxcell>=ngrid)
+        return CATCHMENT_ERROR + __LINE__;
+
     nbuffer = 1;
-    buffer[0] = idxcells_area[0];
+    buffer[0] = idxcell;
 
     for(i=1; i<nval; i++)
     {
         idxcell = idxcells_area[i];
+
+        /* Check cell is within the grid */
+        if(idxcell<0 || idxcell>=ngrid)
+            return CATCHMENT_ERROR + __LINE__;
 
         /* Check if cell is in  area */
         if(catchment_area_mask[idxcell]!=1)
@@ -317,6 +325,10 @@ long long c_delineate_boundary(long long nrows, long long ncols,
             if(dist<dmin)
                 break;
         }
+
+        /* Stop if no other boundary cell was ever found */
+        if(knext<0)
+            break;
 
         /* Iterate if we have a neighbour */
         buffer[knext] = -1;
